@@ -403,7 +403,8 @@ CLAIMED["C21"] = dict(
     note=TB + "; sympy's polynomial arithmetic is the computation the code itself relies on (trusted); identities verified on the cone over SO(3) hold on SO(3) by homogeneity")
 
 CLAIMED["C20"] = dict(
-    text="SymWann.symmetrize is a linear map on the real-space matrices; the assembled REAL class (irreducible (R,a,b) search, backward rotation, "
+    category="other",        # four obligations of the driver unit are the recorded finding K4 and stay undischarged: not every obligation is proved
+    text="(Mixed: proof obligations discharged except the four of the driver unit that are the recorded known finding K4 -- centres when orbitals mix.) SymWann.symmetrize is a linear map on the real-space matrices; the assembled REAL class (irreducible (R,a,b) search, backward rotation, "
          "averaging, completion of the R-set) is executed on SYMBOLIC matrices Ham and AA for concrete structures (orthorhombic mmm with a two-site s "
          "orbit and a p shell, a 2_1 screw axis; thorough: monoclinic, tetragonal 4/mmm, hexagonal with p orbitals mixing under C3) and its output is "
          "proved equal, coefficient by coefficient, to the group average (1/|G|) sum_g g.X of a group action written in the contract from the geometry "
